@@ -86,6 +86,45 @@ def css(em, env, abbr, cache=None, options=None, snippets=None, context=None):
     return em.expand(abbr, cfg)
 
 
+class SelfCheck(AssertionError):
+    pass
+
+
+def seq_edit_call_config(em, e):
+    "the caller edits its own dict in place between two calls: the second call sees the new contents"
+    d = {'options': {'output.selfClosingStyle': 'html', 'output.format': False}, 'snippets': {}}
+    r1 = em.expand('br+zq', d)
+    d['options']['output.selfClosingStyle'] = 'xhtml'
+    d['snippets']['zq'] = 'span.q'
+    r2 = em.expand('br+zq', d)
+    if (r1, r2) != ('<br><zq></zq>', '<br /><span class="q"></span>'):
+        raise SelfCheck('SELFCHECK call config edited in place: %r' % ((r1, r2),))
+    return r1, r2
+
+
+def seq_edit_global_config(em, e):
+    g = {'markup': {'snippets': {'foo': 'div.first'}}, 'stylesheet': {'options': {'stylesheet.intUnit': 'pt'}}}
+    r1 = em.expand('foo', {}, g), em.expand('m10', {'type': 'stylesheet'}, g)
+    g['markup']['snippets']['foo'] = 'span.second'
+    g['stylesheet']['options']['stylesheet.intUnit'] = 'rem'
+    r2 = em.expand('foo', {}, g), em.expand('m10', {'type': 'stylesheet'}, g)
+    if (r1, r2) != (('<div class="first"></div>', 'margin: 10pt;'), ('<span class="second"></span>', 'margin: 10rem;')):
+        raise SelfCheck('SELFCHECK global config edited in place: %r' % ((r1, r2),))
+    return r1, r2
+
+
+def seq_edit_config_object(em, e):
+    "a long-lived Config with its own cache whose snippet table is edited in place"
+    c = em.Config({'type': 'stylesheet', 'cache': {}, 'options': {'output.field': FIELD}})
+    r1 = em.expand('bd+zz', c)
+    c.snippets['bd'] = 'border-color:red|blue'
+    c.snippets['zz'] = 'zoom:2'
+    r2 = em.expand('bd+zz', c)
+    if (r1, r2) != ('border: ${1:1px} ${2:solid} ${3:#000};', 'border-color: ${1:red};\nzoom: 2;'):
+        raise SelfCheck('SELFCHECK Config.snippets edited in place: %r' % ((r1, r2),))
+    return r1, r2
+
+
 OPS = [
     ('m_ok', lambda em, e: em.expand('ul>li.item$*2>a', e['A'])),
     ('m_wrap', lambda em, e: em.expand('ul>li*', e['T'])),
@@ -128,6 +167,12 @@ OPS = [
     ('m_xsl', lambda em, e: em.expand('!!!+tm', {'syntax': 'xsl'})),
     ('m_wrap_empty_list', lambda em, e: em.expand('ul>li*+a', e['TE'])),
     ('m_wrap_empty_str', lambda em, e: em.expand('ul>li*+a', e['TS'])),
+    ('seq_edit_call_config', seq_edit_call_config),
+    ('after_edit_call_config', lambda em, e: em.expand('br+zq', {'options': {'output.selfClosingStyle': 'xhtml', 'output.format': False}, 'snippets': {'zq': 'span.q'}})),
+    ('seq_edit_global_config', seq_edit_global_config),
+    ('seq_edit_config_object', seq_edit_config_object),
+    # a snippet table whose conversion raises half-way, through a shared cache: the failure must be repeatable
+    ('css_bad_table', lambda em, e: css(em, e, 'm10', 'C2', None, {'dsp': 'display:block|none|', 'mten': 'margin:10px'})),
 ]
 OPNAMES = [o[0] for o in OPS]
 
@@ -333,11 +378,14 @@ def leak_probe(i):
     env = make_env(em)
     counts = []
     sizes = []
+    bad = []
     for _ in range(4):
-        call(i, em, env)
+        r = call(i, em, env)
+        if r[0] == 'exc' and r[1] == 'SelfCheck':
+            bad.append(('self-check:%s' % OPNAMES[i], dict(result=r)))
+            return bad
         counts.append(live_emmet_objects(env))
         sizes.append(module_sizes())
-    bad = []
     if counts[0] < counts[1] < counts[2] < counts[3]:
         bad.append(('leak:objects-kept-alive:%s' % OPNAMES[i], dict(live_counts=counts)))
     for k in sizes[0]:
